@@ -357,6 +357,62 @@ def h_controls_representation(ctx):
               replay=(replay_controls_representation, lambda m: {}))
 
 
+def replay_engine_reuse(sc):
+    """the real multilevel engine object used for two pricings (first run 3 samples on level 0, second run 1): the second run's price, N_l
+    and level mean are those of the second run's own samples"""
+    class Two:
+        def __init__(self):
+            self.run = 0
+
+    st = Two()
+    regs = []
+
+    def compute(rmse, vl, cl):
+        return np.array([3 if st.run == 0 else 1] + [0] * (len(vl) - 1))
+
+    cc = CR.ConvergenceCriteria(criteria=lambda a, ml, r: True, compute_mc_paths=compute)
+    cfg = CFG.ConfigurationMultiLevel(convergence_rates=CFG.ConvergenceRates(alpha=1.0, beta=1.0, gamma=1.0), convergence_criteria=cc,
+                                      initial_level=0, maximum_level=0, initial_mc_paths=1, nb_of_processes=1)
+    cfg.initialisation_seed = lambda multiprocessing=False: None
+    ctxc = ConcreteCtx({}, {})
+    reg = Registry(ctxc)
+    eng = ME.Engine(cfg, ScriptedCoupling(reg, 0.9))
+    out = []
+    for run in range(2):
+        st.run = run
+        reg.samples, reg.costs = {}, {}
+        try:
+            stats = eng.price(ScriptedProduct(2.0), 0.1)
+        except Exception as e:
+            return True, f"pricing number {run + 1} on the same Engine raises {type(e).__name__}: {str(e)[:120]}"
+        S = reg.samples.get(0, [])
+        want = sum(0.9 * 2.0 * (f - c) for f, c in S) / len(S)
+        got = float(np.ravel(stats.price())[0])
+        if abs(got - want) > 1e-9 * max(1.0, abs(want)) or int(stats.mlmc_results.Nl[0]) != len(S):
+            out.append(f"pricing number {run + 1}: price {got!r} / N_0 = {int(stats.mlmc_results.Nl[0])}, mean of its own {len(S)} samples {want!r}")
+    return bool(out), "one Engine, two pricings: " + ("; ".join(out) if out else "each pricing reports its own samples")
+
+
+def h_engine_reuse(ctx):
+    """one Engine object prices twice (a looser target the second time: 1 sample on level 0 after 1 + 2): the second result is computed
+    from the second run's samples only"""
+    eng, prod, reg, crit, df, notional = make_engine(ctx, 0, 1, 0, 2)
+    answers = [[3], [1]]
+    run = [0]
+    eng.configuration.convergence_criteria.compute_mc_paths = lambda rmse, vl, cl: np.array(answers[run[0]] + [0] * (len(vl) - 1))
+    eng.configuration.convergence_criteria.criteria = lambda a, ml, r: True
+    rmse = ctx.real("rmse")
+    ctx.assume(rmse > 0)
+    rp = (replay_engine_reuse, lambda m: {})
+    for k in range(2):
+        run[0] = k
+        reg.samples, reg.costs = {}, {}
+        stats = eng.price(prod, rmse)
+        S, ys, fs = _level_terms(reg, 0, df, notional)
+        info = {"pricing": k + 1, "samples": len(S)}
+        ctx.prove("C05.each_pricing_on_an_engine_reports_its_own_samples", AND(EQ(stats.price(), sum(ys) / len(S)), EQ(stats.mlmc_results.Nl[0], len(S))), info=info, replay=rp)
+
+
 def replay_fixed_crash(sc):
     try:
         ok, detail = replay_run(sc)
@@ -466,6 +522,7 @@ def harnesses(tier):
         hs.append(Harness(f"adaptive.L{il}.N{n0}.M{lm}.B{b}.P{ps}", h_adaptive, {"il": il, "n0": n0, "lm": lm, "bound": b, "passes": ps}, max_paths=120000 if not q else 6000, batch=10))
     for il, n0, lm, b, ps in ([(0, 1, 1, 2, 3)] if q else [(0, 1, 1, 2, 4), (1, 1, 1, 2, 4), (0, 2, 1, 2, 3)]):
         hs.append(Harness(f"adaptive.pool.L{il}.N{n0}.M{lm}.B{b}.P{ps}", h_adaptive, {"il": il, "n0": n0, "lm": lm, "bound": b, "passes": ps, "pool": True}, max_paths=120000 if not q else 6000, batch=10))
+    hs.append(Harness("engine.reuse", h_engine_reuse, max_paths=200))
     hs.append(Harness("controls.representation", h_controls_representation, max_paths=200))
     for il, n0, lm, b in ([(0, 1, 0, 2)] if q else [(0, 1, 0, 2), (1, 1, 1, 2), (0, 2, 1, 2)]):
         hs.append(Harness(f"adaptive.controls.L{il}.N{n0}.M{lm}.B{b}", h_adaptive_cv, {"il": il, "n0": n0, "lm": lm, "bound": b}, max_paths=6000, batch=10))
